@@ -46,7 +46,7 @@ fn reader(path: &str) -> Result<Vec<u8>, Box<dyn std::error::Error + Send + Sync
     }
 }
 
-pub const VALUES: [&str; 44] = [
+pub const VALUES: [&str; 56] = [
     "",
     "localtime",
     ":x",
@@ -91,6 +91,20 @@ pub const VALUES: [&str; 44] = [
     "x",
     ":\u{e9}",
     "EST5 EDT",
+    // surrounding characters that are white space for Unicode but not for ASCII: never stripped
+    "\u{b}UTC0",
+    "UTC0\u{b}",
+    "\u{a0}UTC0",
+    "UTC0\u{85}",
+    "\u{2003}EST5EDT,M3.2.0,M11.1.0",
+    "<+03>-3\u{3000}",
+    "\u{2028}UTC0\u{2029}",
+    "\u{feff}UTC0",
+    // every ASCII white space character, both sides
+    " \t\r\n\u{c}UTC0\u{c}\n\r\t ",
+    "\rEST5EDT,M3.2.0,M11.1.0\r\n",
+    "\u{c}",
+    "UTC0\0",
 ];
 
 const DIR_LISTS: [&[&str]; 9] = [&[], &["/d1"], &["/d1", "/d2"], &["/d2", "/d1"], &["/d1", "/d2", "/d3"], &["/d3", "/d2", "/d1"], &["/d1", "/d1"], &["rel-dir"], &["/usr/share/zoneinfo", "/share/zoneinfo", "/etc/zoneinfo"]];
@@ -197,6 +211,9 @@ fn check_config(l: &mut Local, value: &str, dirs: &[&str], assignment: &[(String
     if value != value.trim_matches(|c: char| c.is_ascii_whitespace()) && matches!(exp.outcome, Outcome::ZoneFromDescription(_)) {
         l.class("whitespace_stripped_before_description");
     }
+    if value != value.trim() && value == value.trim_matches(|c: char| c.is_ascii_whitespace()) && matches!(exp.outcome, Outcome::ErrDescription) {
+        l.class("unicode_only_whitespace_not_stripped");
+    }
     if exp.reads.is_empty() {
         l.class("no_read_at_all");
     }
@@ -204,7 +221,7 @@ fn check_config(l: &mut Local, value: &str, dirs: &[&str], assignment: &[(String
 
 pub fn run(ctx: &Ctx) -> Report {
     let mut rep = Report::new("C20");
-    rep.rule = "cases = (TZ value, directory list, virtual file system) configurations resolved through TimeZoneSettings::new(dirs, recording reader).parse_posix_tz(value); the real file system is not involved. Enumerated completely: 44 TZ-value shapes (empty, localtime, :x, :/abs, /abs, relative names, names that are also valid descriptions, descriptions with surrounding whitespace, ':' alone, non-ASCII, ...) \
+    rep.rule = "cases = (TZ value, directory list, virtual file system) configurations resolved through TimeZoneSettings::new(dirs, recording reader).parse_posix_tz(value); the real file system is not involved. Enumerated completely: 56 TZ-value shapes (empty, localtime, :x, :/abs, /abs, relative names, names that are also valid descriptions, descriptions with surrounding ASCII whitespace (stripped) and Unicode-only whitespace (never stripped), ':' alone, non-ASCII, ...) \
                 x 9 directory lists (0..3 directories, permutations, duplicates, relative) x every assignment of {absent, valid TZif, garbage, readable but empty} to each candidate path. Oracle: M-resolve (tzset(3) order), compared on the exact sequence of reader arguments and on the result class; valid files carry distinct offsets so the zone returned identifies the file used. distinct_nontrivial = configurations (distinct by construction)."
         .into();
     rep.required_classes = vec![
@@ -220,6 +237,7 @@ pub fn run(ctx: &Ctx) -> Report {
         "localtime_value",
         "absolute_path_value",
         "whitespace_stripped_before_description",
+        "unicode_only_whitespace_not_stripped",
         "no_read_at_all",
     ];
     if let Err(e) = crate::mon::c03::self_tests() {
@@ -268,6 +286,6 @@ pub fn run(ctx: &Ctx) -> Report {
         }
     });
     rep.exhaustive = true;
-    rep.notes.push("exhaustive over the listed value shapes x directory lists x file-system assignments; TZ values outside the 44 shapes are covered by C09 (description grammar) only".into());
+    rep.notes.push("exhaustive over the listed value shapes x directory lists x file-system assignments; TZ values outside the 56 shapes are covered by C09 (description grammar) only".into());
     rep
 }
